@@ -81,6 +81,72 @@ def _run(pid, tier):
                     t2 = t2 + mgmodel.record(ad2, [c3])[1:]
                 traces.append(t2)
                 meta.append((kind, t2))
+    # ---- C2S (a'): the refinement-region lattice: every subset of the columns of a 3x3 mesh (single columns, strips, L- and
+    # U-shapes, regions touching the boundary, regions with holes), full refinement and bisections; 4x3 subsets sampled
+    import copy as _copy
+    import itertools as _it
+    base33 = mgmodel.Adapter(mgmodel.lattice_mesh("3x3"))
+    base33.project()
+    names33 = [c_.name for c_ in base33.geo.columnlist]
+    subsets = [list(s_) for k in range(1, 10) for s_ in _it.combinations(names33, k)]
+    if quick:
+        rng.shuffle(subsets)
+        subsets = subsets[:120]
+    for sub in subsets:
+        mode = rng.choice([False, False, "x", "y", True])
+        ad = _copy.deepcopy(base33)
+        t = mgmodel.record(ad, [{"op": "refine", "args": [sub, mode, "all" if mode and rng.random() < 0.5 else False]}])
+        traces.append(t)
+        meta.append(("3x3-subset", t))
+    base43 = mgmodel.Adapter(mgmodel.lattice_mesh("4x3"))
+    base43.project()
+    names43 = [c_.name for c_ in base43.geo.columnlist]
+    for _ in range(40 if quick else 1500):
+        sub = rng.sample(names43, rng.randint(1, 11))
+        ad = _copy.deepcopy(base43)
+        t = mgmodel.record(ad, [{"op": "refine", "args": [sub, False, False]}])
+        traces.append(t)
+        meta.append(("4x3-subset", t))
+    # bisection with several edge columns (wide and tall columns side by side)
+    basewt = mgmodel.Adapter(mgmodel.lattice_mesh("wt"))
+    basewt.project()
+    nameswt = [c_.name for c_ in basewt.geo.columnlist]
+    for k in range(1, 4):
+        for sub in _it.combinations(nameswt, k):
+            for mode in (True, "x", "y"):
+                for edge in (False, True, "all"):
+                    ad = _copy.deepcopy(basewt)
+                    t = mgmodel.record(ad, [{"op": "refine", "args": [list(sub), mode, edge]}])
+                    traces.append(t)
+                    meta.append(("wt", t))
+    basewt2 = mgmodel.Adapter(mgmodel.lattice_mesh("wt2"))
+    basewt2.project()
+    cl = basewt2.geo.columnlist
+    pairs = [[cl[5].name, cl[6].name], [cl[5].name], [cl[6].name], [cl[1].name, cl[5].name], [cl[4].name, cl[5].name, cl[6].name]]
+    for sub in pairs:
+        for mode in (True, "x", "y"):
+            for edge in (False, True, "all"):
+                ad = _copy.deepcopy(basewt2)
+                t = mgmodel.record(ad, [{"op": "refine", "args": [list(sub), mode, edge]}])
+                traces.append(t)
+                meta.append(("wt2", t))
+    # decomposition of 5..8-sided columns with 1..4 straight angles, for every start of the node cycle
+    mm = core.repo_modules("mulgrids")
+    for k in range(1, 5):
+        for sides in _it.combinations(range(4), k):
+            for rot in range(4 + k):
+                if quick and k < 3 and rot % 3:
+                    continue
+                geo = mgmodel.poly_mesh(mm, 0, sides, rot)
+                ad = mgmodel.Adapter(geo)
+                t = mgmodel.record(ad, [{"op": "decompose_columns", "args": [[geo.columnlist[0].name]]}])
+                traces.append(t)
+                meta.append(("poly%d" % (4 + k), t))
+                geo = mgmodel.poly_mesh(mm, 0, sides, rot)
+                ad = mgmodel.Adapter(geo)
+                t = mgmodel.record(ad, [{"op": "decompose_columns", "args": [[]]}])
+                traces.append(t)
+                meta.append(("poly%d" % (4 + k), t))
     # ---- C2S (b): random sequences on larger lattice meshes
     for _ in range(3 if quick else 30):
         nx, ny = rng.randint(3, 7 if quick else 12), rng.randint(2, 6 if quick else 12)
